@@ -190,6 +190,11 @@ struct Ctx {
     /// class is capped so that a frequent one (F5 in the simd build) cannot
     /// use up `Out`'s global limit and hide the others
     fail_classes: HashMap<String, usize>,
+    /// destination pre-fill variant (C18): 0 = 0xA5 / STR_PAT, 1 = 0x00 / ASCII, 2 = 0xFF / another
+    /// multi-byte pattern (character boundaries and continuation bytes at other offsets)
+    fill_variant: usize,
+    /// C18 mode: every case is executed with all three fills; only differences are reported, under C18
+    c18: bool,
 }
 
 impl Ctx {
@@ -202,6 +207,8 @@ impl Ctx {
             beyond_example: BTreeMap::new(),
             align_ctr: 0,
             fail_classes: HashMap::new(),
+            fill_variant: 0,
+            c18: false,
         }
     }
     fn next_align(&mut self) -> usize {
@@ -272,10 +279,14 @@ fn place<T: Copy + Default>(src: &[T], align: usize) -> (Vec<T>, usize) {
     (v, o)
 }
 
-fn fill_str_pattern(d: &mut [u8]) {
+const STR_PATS: [&str; 3] = [STR_PAT, "x", "\u{20AC}\u{E9}\u{10348}\u{A5}\u{3042}"];
+const FILLS8: [u8; 3] = [FILL8, 0x00, 0xFF];
+const FILLS16: [u16; 3] = [FILL16, 0x0000, 0xFFFF];
+
+fn fill_str_pattern(d: &mut [u8], variant: usize) {
     let mut i = 0;
     'o: loop {
-        for ch in STR_PAT.chars() {
+        for ch in STR_PATS[variant % 3].chars() {
             let l = ch.len_utf8();
             if i + l > d.len() {
                 break 'o;
@@ -419,6 +430,7 @@ fn check_partial(
 // ---------------------------------------------------------------------------
 
 fn run_case(out: &mut Out, cx: &mut Ctx, f: F, src: &Src, dstlen: usize, align: usize, emit: bool) {
+    let variant = cx.fill_variant % 3;
     out.oracle_evals += 1;
     let name = f.name();
     *cx.calls.entry(name).or_insert(0) += 1;
@@ -518,7 +530,7 @@ fn run_case(out: &mut Out, cx: &mut Ctx, f: F, src: &Src, dstlen: usize, align: 
                     _ => unreachable!(),
                 }
             };
-            let g = guarded(FILL16, buflen, align, &mut init, &mut call);
+            let g = guarded(FILLS16[variant], buflen, align, &mut init, &mut call);
             if let Some(o) = &g.oob {
                 fails.push(format!("out-of-bounds write {} {}", name, o));
             }
@@ -627,7 +639,7 @@ fn run_case(out: &mut Out, cx: &mut Ctx, f: F, src: &Src, dstlen: usize, align: 
             let is_str = f.dst_kind() == DstKind::Str;
             let mut init = |d: &mut [u8]| {
                 if is_str {
-                    fill_str_pattern(d);
+                    fill_str_pattern(d, variant);
                 }
             };
             let mut call = |d: &mut [u8]| -> Ret {
@@ -670,7 +682,7 @@ fn run_case(out: &mut Out, cx: &mut Ctx, f: F, src: &Src, dstlen: usize, align: 
                     _ => unreachable!(),
                 }
             };
-            let g = guarded(FILL8, dstlen, align, &mut init, &mut call);
+            let g = guarded(FILLS8[variant], dstlen, align, &mut init, &mut call);
             if let Some(o) = &g.oob {
                 fails.push(format!("out-of-bounds write {} {}", name, o));
             }
@@ -846,7 +858,11 @@ fn run_case(out: &mut Out, cx: &mut Ctx, f: F, src: &Src, dstlen: usize, align: 
         match cx.seen.get(&hl) {
             Some(&prev) => {
                 if prev != hr {
-                    fails.push(format!("result differs between executions/alignments: now {} (align {})", rhs, align));
+                    if cx.c18 && variant != 0 {
+                        out.fail("C18", &lhs, format!("{} results depend on the destination's old contents: with pre-fill variant {} (0x{:02X} / str pattern {:?}) the call returned {}", name, variant, FILLS8[variant], STR_PATS[variant], rhs));
+                    } else {
+                        fails.push(format!("result differs between executions/alignments: now {} (align {})", rhs, align));
+                    }
                 }
             }
             None => {
@@ -861,7 +877,7 @@ fn run_case(out: &mut Out, cx: &mut Ctx, f: F, src: &Src, dstlen: usize, align: 
         let class = format!("{} {}", name, m.split(' ').take(2).collect::<Vec<_>>().join(" "));
         let n = cx.fail_classes.entry(class).or_insert(0);
         *n += 1;
-        if *n <= 12 {
+        if *n <= 12 && !cx.c18 {
             out.fail(PROP, &lhs, m);
         }
     }
@@ -1261,6 +1277,15 @@ fn run_aligned(out: &mut Out, cx: &mut Ctx, f: F, src: &Src, dstlen: usize, all_
     } else {
         let a = cx.next_align();
         run_case(out, cx, f, src, dstlen, a, emit);
+        if cx.c18 {
+            // the same call into destinations with other old contents: same return values and
+            // same written prefix required (compared through the `seen` table)
+            for v in 1..3 {
+                cx.fill_variant = v;
+                run_case(out, cx, f, src, dstlen, a, emit);
+            }
+            cx.fill_variant = 0;
+        }
     }
 }
 
@@ -1570,10 +1595,11 @@ fn extras(out: &mut Out, cx: &mut Ctx, al: &Alphas, rng: &mut Rng, f: F, thoroug
 }
 
 pub fn generate(prop: &str, out: &mut Out, thorough: bool, seed: u64) -> bool {
-    if prop != PROP {
+    if prop != PROP && prop != "C18" {
         return false;
     }
     let mut cx = Ctx::new();
+    cx.c18 = prop == "C18";
     let al = Alphas::new();
     for (fidx, &f) in ALL_FNS.iter().enumerate() {
         let mut rng = Rng::new(seed ^ (0xC15_0000 + fidx as u64));
@@ -1624,5 +1650,16 @@ pub fn replay(toks: &[&str], out: &mut Out) -> bool {
     }
     let mut cx = Ctx::new();
     run_case(out, &mut cx, f, &src, dstlen, 0, true);
+    // C18: the same call with the other destination pre-fills
+    let mut cx2 = Ctx::new();
+    cx2.c18 = true;
+    let mut sink = Out::new();
+    for v in 0..3 {
+        cx2.fill_variant = v;
+        run_case(&mut sink, &mut cx2, f, &src, dstlen, 0, true);
+    }
+    for l in sink.oracle_fail {
+        out.oracle_fail.push(l);
+    }
     true
 }
